@@ -65,6 +65,7 @@ def run(F, rep, tier):
     union_find(F, rep)
     census(F, rep, contracts)
     unsigned_sub(F, rep)
+    index_guard(F, rep)
 
 
 # --------------------------------------------------------------------------- helpers
@@ -650,6 +651,7 @@ def guard(F, rep):
                     % (name, " (and removes the current pair from the set)" if removes else "")),
                    line_of(fresh_rec) if fresh_rec else fn["sp"])
     rep.floor("GUARD", "functions recursing over type components", n, 8)
+    guard_discipline(F, rep, fns, calls)
     # unfolding the type *graph* (nodes shared through TyID) into an owned *tree*: the visited map stops cycles but not
     # sharing, so the tree of `a30` in `a0 := (1, 1); a1 := (a0, a0); ..` has 2^31 leaves unless depth or size is bounded
     for p, fn in sorted(fns.items()):
@@ -668,6 +670,95 @@ def guard(F, rep):
     fr = F.fn("sylt_compiler::dependency::order::recurse")
     t = pp(fn_body(fr))
     rep.ob("GUARD", "dependency::recurse", "inserted.entry(" in t and "State::Inserting" in t, "the dependency ordering marks nodes before recursing", fr["sp"])
+
+
+def guard_discipline(F, rep, fns=None, calls=None):
+    """the visited set of a guarded structural walk means `this pair has been examined *by this walk*`:
+    (fresh) every walk started from outside the function gets a set of its own - a set shared between the walks of
+    different constraints (check_constraints runs Add, Sub, Mul .. over the same node pair) lets the first walk's entries
+    silence the others; (roles) a walk whose verdict depends on the order of its two arguments (div: tuple / number is
+    fine, number / tuple is not) must not mark the flipped pair as visited."""
+    import tc, c03
+    if fns is None:
+        fns = {fn["_path"]: fn for fn in F.fns_in("sylt_compiler::typechecker::TypeChecker::")}
+        calls = {p: {callee(c) for c in nodes(fn_body(fn)) if c.get("k") in ("Call", "MethodCall") and callee(c) in fns} for p, fn in fns.items()}
+    guarded = {}
+    for p, fn in fns.items():
+        if p in calls.get(p, ()):
+            # a *visited* collection is keyed by type nodes (a map from generic names to nodes is an environment, shared on purpose)
+            sp = [i for i, prm in enumerate(fn["params"]) if re.search(r"(HashMap|HashSet|BTreeMap|BTreeSet)<\(?(sylt_common::)?TyID", prm["ty"])]
+            if sp and any("TyID" in prm["ty"] for prm in fn["params"]):
+                guarded[p] = sp[0]
+    n = 0
+    for caller_p, caller in sorted(fns.items()):
+        body = fn_body(caller)
+        fl = None
+        k = 0
+        for c, parents in walk(body):
+            if c.get("k") != "MethodCall" or callee(c) not in guarded or callee(c) == caller_p:
+                continue
+            if fl is None:
+                fl = Flow(caller, body)
+            n += 1
+            k += 1
+            args = call_args(c)
+            a = peel_clone(args[guarded[callee(c)]])
+            while a.get("k") in ("AddrOf", "Unary", "Ref"):
+                a = peel_clone(a.get("e"))
+            fresh = a.get("k") == "Call" and last(callee(a) or "") == "new"
+            why = "a set created for this walk"
+            if not fresh and a.get("k") == "Path" and a.get("res") == "Local":
+                o = fl.origin.get(a["hid"])
+                if o and o["kind"] == "param":
+                    fresh, why = True, "the caller's own walk (passed through)"
+                elif o and o["kind"] == "let" and o.get("src") is not None:
+                    init = peel_clone(o["src"])
+                    is_new = init.get("k") == "Call" and last(callee(init) or "") == "new"
+                    users = [x for x in nodes(body, "MethodCall") if callee(x) in guarded and callee(x) != caller_p
+                             and any(y.get("hid") == a["hid"] for y in nodes(x, "Path"))]
+                    in_loop_after_let = False
+                    seen_let = False
+                    for p in parents:
+                        if p.get("k") == "Block" and any(st is o["node"] for st in p.get("stmts", [])):
+                            seen_let = True
+                        elif seen_let and p.get("k") in ("ForLoop", "While", "Loop"):
+                            in_loop_after_let = True
+                    fresh = is_new and len(users) == 1 and not in_loop_after_let
+                    why = "a local set used by this walk only"
+            rep.ob("GUARD", "%s->%s#%d|fresh-visited-set" % (last(caller_p), last(callee(c)), k), fresh,
+                   ("%s starts %s with %s" % (last(caller_p), last(callee(c)), why)) if fresh else
+                   ("%s starts %s with a visited set that other walks use as well (created outside the loop / shared between "
+                    "handlers): pairs examined by an earlier constraint's walk are skipped by the next one, e.g. `a + b` on two "
+                    "strings makes a later `a - b` on the same variables pass unchecked" % (last(caller_p), last(callee(c)))),
+                   line_of(c))
+    rep.floor("GUARD", "walks started with a visited set", n, 12)
+    # roles
+    for p, idx in sorted(guarded.items()):
+        fn = fns[p]
+        prm = fn["params"][idx]
+        seen_h = {b["hid"] for b in pat_bindings(prm["pat"])}
+        body = fn_body(fn)
+        fl = Flow(fn, body)
+        pairs = []
+        for c in nodes(body, "MethodCall"):
+            if c["m"] == "insert" and peel(c["recv"]).get("hid") in seen_h and c.get("args"):
+                t = peel(c["args"][0])
+                if t.get("k") == "Tup" and len(t["es"]) == 2:
+                    pairs.append(tuple(peel(x).get("name") for x in t["es"]))
+        flipped = any((y, x) in pairs for x, y in pairs if x != y)
+        if not flipped:
+            continue
+        rows = tc.accept_table(F, fn)
+        sym = None
+        if rows:
+            table, default = c03.expand_rows(rows)
+            conc = {k: v for k, v in table.items() if "_" not in k}
+            sym = all(conc.get((b, a), default) == v for (a, b), v in conc.items())
+        rep.ob("GUARD", "%s|flipped-pair-only-if-symmetric" % last(p), bool(sym),
+               ("TypeChecker::%s marks (a, b) and (b, a) as visited and its accept table is symmetric" % last(p)) if sym else
+               ("TypeChecker::%s marks the flipped pair (b, a) as visited although its verdict depends on the argument order "
+                "(tuple / number is accepted, number / tuple is not): after (t, n) / (n, t) has looked at t / n, the illegal "
+                "n / t is skipped" % last(p)), fn["sp"])
 
 
 # --------------------------------------------------------------------------- UNION-FIND
@@ -871,3 +962,81 @@ def unsigned_sub(F, rep):
                                  "can end up below it (`loop c do .. end end` panics with `attempt to subtract with overflow`)"
                                  if "last_statement" in key[1] else "")), line_of(b))
     rep.floor("UNSIGNED-SUB", "unsigned subtractions", n, 7)
+
+
+# --------------------------------------------------------------------------- counter-indexed accesses
+
+def index_guard(F, rep):
+    """`X[i]` where i counts the elements of *another* collection (`for (i, v) in Y.iter().enumerate()`): in range only if
+    an exit earlier in the loop body fires as soon as i reaches X.len().  The guard is evaluated, not recognised by its
+    spelling: it must be true for i == len (then, by induction from i = 0, i < len whenever the index is reached)."""
+    n = 0
+    for fn in F.own_fns(CRATES):
+        if "::test" in fn["_path"]:
+            continue
+        body = fn_body(fn)
+        fl = None
+        for ix, parents in walk(body):
+            if ix.get("k") != "Index":
+                continue
+            i = peel(ix["i"])
+            if i.get("k") != "Path" or i.get("res") != "Local":
+                continue
+            if fl is None:
+                fl = Flow(fn, body)
+            o = fl.origin.get(i["hid"])
+            if not (o and o["kind"] == "for" and o["path"][:1] == (("tuple", 0),)
+                    and any(c["m"] == "enumerate" for c in nodes(o["src"], "MethodCall"))):
+                continue
+            base = peel(ix["e"])
+            over = [x.get("hid") for x in nodes(o["src"], "Path") if x.get("res") == "Local"]
+            if base.get("hid") in over:
+                continue  # indexing the collection that is being enumerated
+            n += 1
+            loop = o["node"]
+            ok = False
+            guard_txt = None
+            here = positions_of(ix)
+            for cnd in nodes(loop["body"], "If"):
+                if positions_of(cnd) >= here:
+                    continue
+                c = peel(cnd["c"])
+                exits = any(x.get("k") in ("Ret", "Break", "Continue") for x in nodes(cnd["t"])) or tc.is_err_value(cnd["t"])
+                if c.get("k") != "Binary" or not exits:
+                    continue
+                def side(e):
+                    e = peel(e)
+                    if e.get("k") == "Path" and e.get("hid") == i["hid"]:
+                        return "i"
+                    if e.get("k") == "MethodCall" and e["m"] == "len" and peel(e["recv"]).get("hid") == base.get("hid"):
+                        return "len"
+                    return None
+                l, r = side(c["l"]), side(c["r"])
+                if {l, r} != {"i", "len"}:
+                    continue
+                guard_txt = pp(c)
+                op = c["op"]
+                fires_at_len = all({"Eq": a == b, "Ne": a != b, "Lt": a < b, "Le": a <= b, "Gt": a > b, "Ge": a >= b}[op]
+                                   for nlen in (0, 1, 3) for a, b in [((nlen, nlen) if l == "i" else (nlen, nlen))])
+                # evaluate with the operands in their written order at i == len
+                vals = {"i": 2, "len": 2}
+                a, b = vals[l], vals[r]
+                fires_at_len = {"Eq": a == b, "Ne": a != b, "Lt": a < b, "Le": a <= b, "Gt": a > b, "Ge": a >= b}.get(op, False)
+                if fires_at_len:
+                    ok = True
+            rep.ob("INDEX-GUARD", "%s|%s" % (last(fn["_path"], 2), re.sub(r"\s+", " ", pp(ix))[:40]), ok,
+                   ("`%s` is reached only while the counter is below the length: the exit `%s` fires at i == len" % (pp(ix)[:30], guard_txt)) if ok else
+                   ("`%s` is indexed with the counter of another collection and no earlier exit in the loop body fires when the "
+                    "counter reaches the length%s: one element too many (a type written with more type arguments than it has "
+                    "parameters) panics with `index out of bounds`" % (pp(ix)[:30], " (the guard `%s` is false at i == len)" % guard_txt if guard_txt else "")),
+                   line_of(ix))
+    rep.floor("INDEX-GUARD", "counter-indexed accesses", n, 1)
+
+
+def positions_of(n):
+    sp = n.get("sp") if isinstance(n, dict) else None
+    try:
+        _f, l, c = sp.rsplit(":", 2)
+        return (int(l), int(c))
+    except (AttributeError, ValueError):
+        return (0, 0)
